@@ -343,3 +343,57 @@ Proof.
     + clear -Hts Hsteps. revert ts Hts. induction steps as [|s rest IH]; intros ts Hts; [exact Hts|]. cbn [fold_left].
       inversion Hsteps as [|? ? (A & B) Hrest]; subst. apply IH; [exact Hrest|]. apply happly_plain; assumption.
 Qed.
+
+(* ---------- ... and every tree of the file is read back by its root name as the tree the history computes *)
+Lemma rd_aom n : forall ks,
+  Forall (fun k => rcls k <> CRoot /\ rname k <> "metadatabundle" /\ rd_tree k) ks -> rd_tree n ->
+  Forall (fun k => rcls k <> CRoot /\ rname k <> "metadatabundle" /\ rd_tree k) (aom n ks).
+Proof.
+  induction n as [c nm t r md kn IH] using rnode_ind'. intros ks Hks Hn. apply rd_tree_inv in Hn. cbn [rkids] in Hn.
+  rewrite aom_eq. cbn [rkids]. apply Forall_app. split.
+  - apply Forall_forall. intros x Hx. apply filter_In in Hx. rewrite Forall_forall in Hks. apply Hks. apply Hx.
+  - apply Forall_forall. intros x Hx. apply in_map_iff in Hx. destruct Hx as (k & <- & Hk).
+    rewrite Forall_forall in IH, Hn, Hks. destruct (Hn k Hk) as (A & B & C).
+    destruct (rget ks (rname k)) as [km|] eqn:E; [|repeat split; assumption].
+    unfold replaced. cbn [rname rcls]. repeat split; try assumption. apply rd_tree_inv. cbn [rkids].
+    apply IH; [exact Hk| |exact C].
+    apply rget_in in E. destruct E as (Hin & _). destruct (Hks km Hin) as (_ & _ & Hkm). apply rd_tree_inv in Hkm.
+    apply Forall_forall. intros y Hy. apply (proj1 (rsort_in _ _)) in Hy. rewrite Forall_forall in Hkm. apply Hkm. exact Hy.
+Qed.
+
+Lemma happly_rd ts s :
+  Forall rd_tree ts -> rd_tree (hroot s) -> Forall rd_tree (happly ts s).
+Proof.
+  intros Hts Hp. destruct s as [r md tr|r md tr|r md tr]; cbn [happly hroot] in *.
+  - apply Forall_app. split; [exact Hts|]. repeat constructor; assumption.
+  - apply Forall_forall. intros t' Ht'. apply in_map_iff in Ht'. destruct Ht' as (t & <- & Ht). rewrite Forall_forall in Hts.
+    destruct (String.eqb (rname t) (rname r)); [|apply Hts; exact Ht].
+    unfold union_root. apply rd_tree_merge; [apply rd_tree_with_mds; apply Hts; exact Ht|exact Hp].
+  - apply Forall_forall. intros t' Ht'. apply in_map_iff in Ht'. destruct Ht' as (t & <- & Ht). rewrite Forall_forall in Hts.
+    destruct (String.eqb (rname t) (rname r)); [|apply Hts; exact Ht].
+    apply rd_tree_inv. assert (rkids (with_kids t (aom r (rkids t))) = aom r (rkids t)) as -> by (destruct t; reflexivity).
+    apply rd_aom; [apply rd_tree_inv; apply Hts; exact Ht|exact Hp].
+Qed.
+
+Lemma happly_invariants ts s : ts <> [] -> Forall (fun t => rcls t = CRoot) ts -> NoDup (map rname ts) -> hok ts s ->
+  happly ts s <> [] /\ Forall (fun t => rcls t = CRoot) (happly ts s) /\ NoDup (map rname (happly ts s)).
+Proof. intros A B C D. destruct (hstep_ok (CFG "" "") (CFG "" "") ts s A B C D) as (_ & X). exact X. Qed.
+
+Theorem history_then_read c c0 steps ts t :
+  ts <> [] -> Forall (fun t => rcls t = CRoot) ts -> NoDup (map rname ts) -> hgood ts steps ->
+  Forall rd_tree ts -> Forall (fun st => rd_tree (hroot st)) steps ->
+  In t (fold_left happly steps ts) -> rname t <> "" -> no_slash (rname t) = true ->
+  exists f, fold_left (fun s st => snd (write_node c s (hroot st) [] (WA (hmode st) (htree st) None))) steps (H5 (forest_file c0 ts)) = H5 f /\
+            read (H5 f) (Some (rname t)) (Some true) = Ok (RTree (canon t) (ret_of (canon t))).
+Proof.
+  intros Hne Hr Hnd Hg Hrd Hsteps Hin Hn1 Hn2. exists (forest_file c0 (fold_left happly steps ts)). split.
+  - apply any_history_of_whole_tree_saves; assumption.
+  - assert (forall steps ts, ts <> [] -> Forall (fun t => rcls t = CRoot) ts -> NoDup (map rname ts) -> hgood ts steps ->
+              Forall rd_tree ts -> Forall (fun st => rd_tree (hroot st)) steps ->
+              Forall (fun t => rcls t = CRoot) (fold_left happly steps ts) /\ NoDup (map rname (fold_left happly steps ts)) /\ Forall rd_tree (fold_left happly steps ts)) as Hall.
+    { clear. induction steps as [|s rest IH]; intros ts Hne Hr Hnd Hg Hrd Hsteps; [repeat split; assumption|].
+      destruct Hg as (Hs & Hrest). cbn [fold_left]. inversion Hsteps as [|? ? Hs1 Hs2]; subst.
+      destruct (happly_invariants ts s Hne Hr Hnd Hs) as (A & B & C). apply IH; try assumption. apply happly_rd; assumption. }
+    destruct (Hall steps ts Hne Hr Hnd Hg Hrd Hsteps) as (A & B & C). rewrite Forall_forall in C.
+    destruct (read_tree_by_name c0 (fold_left happly steps ts) t B Hin A (C t Hin) Hn1 Hn2) as (R & _). exact R.
+Qed.
